@@ -23,7 +23,7 @@ from .c11 import TYPES, SPIN_FN, MATRIX, FNS, SCHEDULE_KWS, _special_models, _ra
 
 _DRIVER = os.path.join(os.path.dirname(os.path.abspath(__file__)), "_c17_driver.py")
 _C_FILES = ("_canneal.c", "anneal_quso.c", "anneal_puso.c", "random.c", "pcg_basic.c")
-_TIMEOUT = 120
+_TIMEOUT = 60
 
 _asan_rt = None
 
@@ -78,7 +78,7 @@ def _classify(stderr, returncode, timed_out):
                   r"Process terminating[^\n]*|Argument '\w+' of function \w+ has a fishy[^\n]*)", stderr)
     if m:
         # only reports whose stack touches the extension's sources
-        for block in re.split(r"\n==\d+== \n", stderr[stderr.index(m.group(0)) - 10:]):
+        for block in re.split(r"\n==\d+== \n", stderr[max(0, stderr.index(m.group(0)) - 10):]):
             if any(f in block for f in _C_FILES):
                 k = re.search(r"==\d+== ([A-Z][^\n]*)", block)
                 kind = _slug(k.group(1) if k else m.group(1))
@@ -141,10 +141,13 @@ def _check_batch(case):
         bad = ("driver-died:rc=%r" % rc, (err or out)[-1500:])
     if bad is not None:
         key, rep = bad
-        i = _last_call(err, rep)
+        located = key.startswith(("asan:", "ubsan:", "valgrind:"))
+        i = _last_call(err, rep if located else None)
         which = calls[i] if i is not None and i < len(calls) else None
+        if not located and which is not None:
+            key += ":anneal_" + which["fn"]
         alone = ""
-        if which is not None and len(calls) > 1:
+        if which is not None and len(calls) > 1 and not key.startswith("hang"):
             rc2, out2, err2, to2 = _run_driver("api", so, [which], env_extra=_asan_env())
             b2 = _classify(err2, rc2, to2)
             alone = " [the same call alone in a fresh process: %s]" % (b2[0] if b2 else "no report")
@@ -230,13 +233,13 @@ def _chunks(xs, n):
 
 def _gen_quadratic(ctx):
     calls = _batch_for(ctx, ["quso", "qubo"], "c17.q", ctx.pick(10, 120), heavy=ctx.thorough)
-    for ch in _chunks(calls, ctx.pick(400, 600)):
+    for ch in _chunks(calls, ctx.pick(800, 800)):
         yield {"calls": ch}
 
 
 def _gen_higher(ctx):
     calls = _batch_for(ctx, ["puso", "pubo"], "c17.p", ctx.pick(8, 100), heavy=ctx.thorough)
-    for ch in _chunks(calls, ctx.pick(400, 600)):
+    for ch in _chunks(calls, ctx.pick(800, 800)):
         yield {"calls": ch}
 
 
@@ -415,7 +418,9 @@ def check_valgrind(case):
         bad = ("driver-died:rc=%r" % rc, (err or out)[-1500:])
     if bad is not None:
         key, rep = bad
-        i = _last_call(err, rep)
+        i = _last_call(err, rep if key.startswith("valgrind:") else None)
+        if not key.startswith("valgrind:") and i is not None:
+            key += ":c_anneal_" + raw[i][0]
         return Fail("valgrind report %s (last call started: #%r = c_anneal_%s%r)"
                     % (key, i, raw[i][0] if i is not None else "?", raw[i][1] if i is not None else "?"), key=key,
                     observed=rep, required="no memcheck report in the extension's code")
